@@ -297,7 +297,8 @@ struct Conv {
 struct V : RecursiveASTVisitor<V> {
     ASTContext & C;
     SourceManager & SM;
-    json::Array funcs, records, globals, enums;
+    json::Array funcs, records, globals, enums, typedefs;
+    std::set<std::string> seenT;
     std::set<std::string> seenF, seenR, seenG;
     V(ASTContext & C) : C(C), SM(C.getSourceManager()) {}
     bool shouldVisitTemplateInstantiations() const { return true; }
@@ -331,7 +332,7 @@ struct V : RecursiveASTVisitor<V> {
         if (auto * CD = dyn_cast<CXXConstructorDecl>(D)) {
             json::Array inits;
             for (auto * I : CD->inits())
-                if (I->isWritten()) inits.push_back(json::Object{{"m", I->getMember() ? I->getMember()->getNameAsString() : std::string("<base>")}, {"e", cv.expr(I->getInit())}});
+                if (I->isWritten()) inits.push_back(json::Object{{"m", I->getMember() ? I->getMember()->getNameAsString() : (I->isDelegatingInitializer() ? std::string("<delegate>") : std::string("<base>"))}, {"e", cv.expr(I->getInit())}});
             o["inits"] = std::move(inits);
             o["ctor"] = true;
         }
@@ -353,7 +354,7 @@ struct V : RecursiveASTVisitor<V> {
             if (auto * BR = B.getType()->getAsCXXRecordDecl()) bn = cv.recName(BR);
             bases.push_back(json::Object{{"n", bn}, {"acc", acc}});
         }
-        for (auto * F : D->fields()) fields.push_back(json::Object{{"n", F->getNameAsString()}, {"t", cv.ty(F->getType())}, {"ct", cv.ty(F->getType().getCanonicalType())}, {"mutable", F->isMutable()}, {"ln", cv.line(F->getLocation())}});
+        for (auto * F : D->fields()) fields.push_back(json::Object{{"n", F->getNameAsString()}, {"t", cv.ty(F->getType())}, {"ct", cv.ty(F->getType().getCanonicalType())}, {"mutable", F->isMutable()}, {"ln", cv.line(F->getLocation())}, {"init", F->hasInClassInitializer()}, {"scalar", F->getType()->isScalarType() && !F->getType()->isReferenceType()}});
         for (auto * M : D->methods()) {
             if (M->isImplicit()) continue;
             json::Object mo{{"n", M->getNameAsString()}, {"id", cv.mangled(M)}, {"virtual", M->isVirtual()}, {"pure", M->isPure()}, {"const", M->isConst()}, {"static", M->isStatic()}, {"body", M->hasBody()}};
@@ -387,6 +388,16 @@ struct V : RecursiveASTVisitor<V> {
         globals.push_back(std::move(o));
         return true;
     }
+    bool VisitTypedefNameDecl(TypedefNameDecl * D) {
+        if (!inRoot(D->getLocation())) return true;
+        QualType U = D->getUnderlyingType();
+        if (U.isNull() || U->isDependentType()) return true;
+        Conv cv(C);
+        std::string n = D->getQualifiedNameAsString();
+        if (!seenT.insert(n).second) return true;
+        typedefs.push_back(json::Object{{"name", n}, {"ct", cv.ty(U.getCanonicalType())}});
+        return true;
+    }
     bool VisitEnumDecl(EnumDecl * D) {
         if (!D->isThisDeclarationADefinition() || !inRoot(D->getLocation())) return true;
         Conv cv(C);
@@ -412,7 +423,7 @@ struct Cons : ASTConsumer {
         for (auto & s : dn) deps.push_back(s);
         std::error_code EC;
         llvm::raw_fd_ostream os(OutFile.empty() ? "-" : OutFile.getValue(), EC);
-        json::Object root{{"functions", std::move(v.funcs)}, {"records", std::move(v.records)}, {"globals", std::move(v.globals)}, {"enums", std::move(v.enums)}, {"deps", std::move(deps)}, {"errors", gHadError}};
+        json::Object root{{"functions", std::move(v.funcs)}, {"records", std::move(v.records)}, {"globals", std::move(v.globals)}, {"enums", std::move(v.enums)}, {"typedefs", std::move(v.typedefs)}, {"deps", std::move(deps)}, {"errors", gHadError}};
         os << json::Value(std::move(root)) << "\n";
     }
 };
